@@ -26,7 +26,7 @@ CLAIM = dict(
          "invariants behind the listed asserts are not decided. "
          "Also: the signed block_start is turned into a window offset only under block_start >= 0 wherever fill_window can have made it negative.",
     note="Trusted: rustc MIR, lint levels as reported by the compiler, the justified-abort table (rules/abort_table.py).",
-    technique="call-graph abort inventory + count-expression guards + lint-level query over the compiler's program",
+    technique="call-graph abort inventory + count-expression guards + taint closure (unvalidated API integers to overflow-checked operators) + lint-level query over the compiler's program",
 )
 
 FORBID_MODULES = [
